@@ -105,6 +105,12 @@ def main():
     rc, out = sh("git -C /repo status --porcelain")
     if out.strip():
         print("ERROR: /repo is not clean; refusing"); sys.exit(3)
+    # a change delivered against an older HEAD that no longer applies is kept together with
+    # its hand-made port to the current HEAD (same edit, moved context)
+    rebased = os.path.join(dst, "patch.rebased.diff")
+    if os.path.exists(rebased):
+        patch = rebased
+        res["detect_patch"] = "patch.rebased.diff"
     rc, out = sh("git -C /repo apply " + patch)
     if rc != 0:
         res.setdefault("detect", {})["apply_on_repo_head"] = "FAILED: " + out[-300:]
